@@ -3,7 +3,7 @@ from .. import build, framework as fw, markers, trees, vmcheck
 from ..sexp import S, dump, pretty
 
 
-def build_history(ctx, sess, n_parse, n_ops, kinds=('and', 'or', 'not'), battery=False):
+def build_history(ctx, sess, n_parse, n_ops, kinds=('and', 'or', 'not'), battery=False, pre=None):
     regs = []
     for _ in range(n_parse):
         t = markers.gen_marker(ctx.rng, ctx.rng.choice([0, 1, 1, 2, 2, 3]))
@@ -11,6 +11,12 @@ def build_history(ctx, sess, n_parse, n_ops, kinds=('and', 'or', 'not'), battery
         if reg is not None:
             regs.append(reg)
         ctx.count('parse:' + r[0])
+    for t in markers.BOUNDARY_TEXTS:
+        reg, r = sess.parse(t)
+        if reg is not None:
+            regs.append(reg)
+    if pre:
+        pre(regs)       # operands produced by other API calls (simplification, restriction, complexify)
     steps = []
     # boundary battery: all ordered pairs of the six comparisons of one key against ONE value, and neighbouring
     # values, under and / or: ranges that touch at a bound with every combination of inclusive / exclusive ends
@@ -40,7 +46,13 @@ def build_history(ctx, sess, n_parse, n_ops, kinds=('and', 'or', 'not'), battery
                 steps.append((k, (a, b), reg))
     for _ in range(n_ops):
         k = ctx.rng.choice(kinds)
-        pick = lambda: ctx.rng.choice(regs[-40:] if ctx.rng.random() < .5 else regs)
+        def pick():
+            # not the very large ones: the unfolded tree of a result can be the product of its operands' trees
+            for _ in range(8):
+                x = ctx.rng.choice(regs[-40:] if ctx.rng.random() < .5 else regs)
+                if sess.sizes.get(x, 0) <= 1500:
+                    return x
+            return x
         if k == 'not':
             a = pick()
             reg, r = sess.op('not', a)
@@ -131,7 +143,9 @@ def run(ctx):
     for rd in range(rounds):
         sess = markers.Session(h)
         keys = markers.Keys(sess.p)
-        regs, steps = build_history(ctx, sess, 120 if quick else 300, 400 if quick else 1500, battery=True)
+        from . import c20
+        regs, steps = build_history(ctx, sess, 120 if quick else 300, 400 if quick else 1500, battery=True,
+                                    pre=lambda rs: c20.extend_history(ctx, sess, rs, 40 if quick else 120))
         bad = monitor(ctx, sess, regs)
         ctx.extra['monitor_wfb_false'] = ctx.extra.get('monitor_wfb_false', 0) + len(bad)
         meta = correspond(ctx, sess, steps, vm=(25 if quick else 150) if rd == 0 else 0)
@@ -140,12 +154,24 @@ def run(ctx):
             try:
                 ms = [sess.model(o) for o in ops] + [sess.model(reg)]
             except Exception:
-                continue
-            nontriv = all(m not in ('T', 'F') for m in ms)
-            if nontriv:
-                ctx.nontrivial((k, dump(ms[0]), dump(ms[-2])))
+                ms = None
+            if ms is None:
+                # an operand or result whose kind() walk is not a partition (C20's business to report): and / or / negate must
+                # still be pointwise; environments on the version grid instead of at the (unavailable) cut values
+                envs = []
+                for v in markers.VERSIONS:
+                    if v.replace('.', '').isdigit():
+                        rel = ([int(x) for x in v.split('.')] + [0, 0])[:3]
+                        e = dict(markers.DEFAULT_ENV, python_full_version='.'.join(map(str, rel)), python_version='%d.%d' % (rel[0], rel[1]))
+                        envs.append((e, [x for x in markers.EXTRAS if ctx.rng.random() < .3]))
+                nontriv = False
+            else:
+                nontriv = all(m not in ('T', 'F') for m in ms)
+                if nontriv:
+                    ctx.nontrivial((k, dump(ms[0]), dump(ms[-2])))
+                envs = markers.grid_envs(ctx.rng, keys, ms, 6 if quick else 10)
             ctx.evaluations += 1
-            for env, ex in markers.grid_envs(ctx.rng, keys, ms, 6 if quick else 10):
+            for env, ex in envs:
                 vals = []
                 for x in list(ops) + [reg]:
                     r = eval_all(sess, x, env, ex)
